@@ -25,21 +25,27 @@ def build(ctx):
     if not ok:
         ctx.corr_broken.append({"what": "model driver acq_chan does not build", "log": log[-2000:]})
         return None, None
-    exe, log = C.compile_harness("h_chan_seq", HARNESS_SRC)
+    exe, log = C.compile_harness("h_chan_seq", HARNESS_SRC, defines=["memset=h_memset"])
     if not exe:
         ctx.corr_broken.append({"what": "harness h_chan_seq does not compile against /repo", "log": log[-3000:]})
         return None, None
     return exe, C.driver_path("acq_chan")
 
 
-def prove_with_lock_discipline(ctx, module, theorems, drivers):
+THREAD_THEOREMS = ["AcqVerif.ChanThreads.%s" % t for t in (
+    "every_schedule_is_a_history", "consumed_is_stream", "status_stays_ok", "write_region_in_buffer", "woken_body_is_step")] + [
+    "AcqVerif.Channel.CReach.inv"]
+
+
+def prove_with_lock_discipline(ctx, module, theorems, drivers, threads=False):
     """the sequential channel model treats one API call as one atomic step; that is only true of a channel.c in which every access
     to the shared fields happens under the channel's lock — checked on the source as it is now (extract/syncskel.py regenerates
     Generated/SyncSkeleton.lean, the theorem is re-checked by the kernel)"""
     from . import syncskel, rtcheck
     syncskel.regenerate(ctx)
     rtcheck.prove_all(ctx, [(module, theorems, drivers),
-                            ("AcqVerif.Props.LockDiscipline", ["AcqVerif.LockDiscipline.lock_discipline_of_source"], [])])
+                            ("AcqVerif.Props.LockDiscipline", ["AcqVerif.LockDiscipline.lock_discipline_of_source"], [])] + (
+                            [("AcqVerif.Props.ChanThreads", THREAD_THEOREMS, ["acq_conc"])] if threads else []))
 
 
 # ---------------------------------------------------------------- generators
@@ -116,13 +122,19 @@ def gen_exhaustive(cap, depth, max_readers, with_accept):
     yield from rec([], False, 0, (), depth)
 
 
-def gen_random(rng, cap, nops, nreaders_max, frame_mode=False):
+BIG_CAPS = [(1 << 31) + (1 << 20), (1 << 32) + 4096, (1 << 32) + (1 << 31), 3 << 31, (1 << 33) + 8]
+BIG_SIZES = [1 << 20, 1 << 30, 1 << 31, (1 << 31) + 1, 1 << 32, (1 << 32) + 4096, (1 << 32) - 1]
+
+
+def gen_random(rng, cap, nops, nreaders_max, frame_mode=False, big=False):
     ops = []
     nr = 0
     pending = False
     mapped = []
     # a few "interesting" sizes relative to the capacity
     pool = [1, 2, 3, cap // 2, cap // 2 + 1, cap // 3, cap - 1, cap - 2, max(1, cap // 4)]
+    if big:  # sizes and consumed counts on either side of 2^31 and 2^32
+        pool += BIG_SIZES + [cap - (1 << 31), cap - (1 << 20)]
     pool = [n for n in pool if 1 <= n < cap] or [1]
     if frame_mode:
         pool = sorted(set(8 * max(1, n // 8) for n in pool if n >= 8)) or [8]
@@ -150,6 +162,8 @@ def gen_random(rng, cap, nops, nreaders_max, frame_mode=False):
                 continue
             if mapped[i]:
                 k = rng.choice([0, 1, 2, 3, cap, cap, cap, cap, rng.randrange(0, cap + 1)])
+                if big and rng.random() < 0.5:
+                    k = rng.choice([x for x in BIG_SIZES if x < cap])
                 if frame_mode:
                     k = rng.choice([0, 8, 16, cap, cap, cap])
                 ops.append("runmap %d %d" % (i, k)); mapped[i] = False
@@ -336,6 +350,15 @@ def explore(ctx, oracles, frame_mode=False):
             rnd.append((cap, gen_random(rng, cap, rng.choice([300, 600, 1500] if thorough else [300, 400]), nr, frame_mode)))
     for i in range(0, len(rnd), 200):
         batches.append(rnd[i:i + 200])
+    # 3. rings of several GiB (address space only): offsets, lengths and bookmark distances beyond 2^31 and 2^32
+    nbig = 0 if frame_mode else (1200 if thorough else 160)
+    bigs = []
+    for k in range(nbig):
+        cap = BIG_CAPS[k % len(BIG_CAPS)]
+        bigs.append((cap, gen_random(rng, cap, rng.choice([60, 150, 300]), 1 + (k // len(BIG_CAPS)) % 4, big=True)))
+    for i in range(0, len(bigs), 200):
+        batches.append(bigs[i:i + 200])
+    stats["big_cases"] = nbig
     samples = []
     for b in batches:
         problems = run_batch(ctx, exe, drv, b, stats)
@@ -390,9 +413,10 @@ def explore(ctx, oracles, frame_mode=False):
     ctx.cov["traces_validated_against_impl"] = stats["validated"]
     ctx.cov["rule"] = ("cases = operation scripts for channel.c: (a) every well-formed sequence up to length %d over "
                        "{wmap n, wcommit, wabort, join, rmap i, runmap i k[, accept b]} for cap 2..5 and <=2 readers (%d cases, exhaustive), "
-                       "(b) %d seeded random histories of 300+ ops for caps %s with 1..8 readers, (c) the corpus. A case is "
+                       "(b) %d seeded random histories of 300+ ops for caps %s with 1..8 readers, (b') %d histories on rings of 2..8 GiB "
+                       "(address space only; write sizes, consumed counts and bookmark distances on both sides of 2^31 and 2^32; interval oracles), (c) the corpus. A case is "
                        "non-trivial if it takes at least one wrap / lap-change / roll-over / blocking / refusal branch; distinct = distinct "
-                       "(cap, branch set, first 40 ops)." % (depth, stats.get("exhaustive_cases", 0), nrand, caps))
+                       "(cap, branch set, first 40 ops)." % (depth, stats.get("exhaustive_cases", 0), nrand, caps, stats.get("big_cases", 0)))
     ctx.cov["exhaustive"] = False
     ctx.cov["model_branch_hits"] = dict(sorted(stats["branches"].items()))
     ctx.cov["operations_compared"] = stats["ops"]
